@@ -202,10 +202,26 @@ blk *al_find(const void *p)
 }
 int al_is_live(const void *p) { blk *b = al_find(p); return b && b->state == 1; }
 
+/* reuse mode: a request is served from the most recently released block of exactly that size, as a LIFO allocator (glibc's tcache) does - code that
+ * compares a pointer with one it has released then meets the coincidence it must not rely on.  Off by default (released memory stays poisoned). */
+int al_reuse;
+static blk *al_lifo[64]; static int al_lifo_n;
 static void *al_new(size_t n)
 {
     blk *b;
     void *payload;
+#ifndef VD_ASAN
+    if (al_reuse) {
+        int k;
+        for (k = al_lifo_n - 1; k >= 0 && k >= al_lifo_n - 4; k--) if (al_lifo[k] && al_lifo[k]->state == 2 && al_lifo[k]->size == n) {
+            b = al_lifo[k]; al_lifo[k] = NULL; while (al_lifo_n > 0 && !al_lifo[al_lifo_n - 1]) al_lifo_n--;
+            b->state = 1; b->tag = 0; b->seq = ++al_seq; b->origin = 0;
+            memset(b->payload, 0xAB, n); memset((char*)b->payload + n, 0xFD, RZ);
+            al_live++;
+            return b->payload;
+        }
+    }
+#endif
 #ifdef VD_ASAN
     b = (blk*)malloc(sizeof(blk));
     payload = malloc(n ? n : 1);
@@ -243,6 +259,7 @@ void al_free(void *p)
     free(p);                                              /* ASan now traps any later access */
 #else
     memset(p, 0xDD, b->size);                             /* stale pointers read as garbage */
+    if (al_reuse) { if (al_lifo_n == 64) { memmove(al_lifo, al_lifo + 32, 32 * sizeof(al_lifo[0])); al_lifo_n = 32; } al_lifo[al_lifo_n++] = b; }
 #endif
 }
 /* The library objects' undefined malloc/free/realloc are renamed to these by objcopy (tools/build.sh), so every
@@ -291,7 +308,7 @@ void al_case_begin(void)
     al_all = NULL;
     for (k = 0; k < usedn; k++) { tab[usedidx[k]].p = NULL; tab[usedidx[k]].b = NULL; }
     usedn = 0; tabused = 0;
-    al_live = 0; al_allocs = 0; al_fail_at = 0; al_bad_free = 0; al_free_null = 0; al_seq = 0; al_overflow = 0;
+    al_live = 0; al_allocs = 0; al_fail_at = 0; al_bad_free = 0; al_free_null = 0; al_seq = 0; al_overflow = 0; al_lifo_n = 0;
 }
 void al_window(long fail_at) { al_allocs = 0; al_fail_at = fail_at; }
 
